@@ -259,7 +259,9 @@ def pquery(q, style=CANON, depth=0):
             out.append(style.lbr() + pcnf_inline(p[1], style, depth) + style.rbr())
             style.pop()
         elif t == "keysfilter":
-            out.append("[ keys %s %s ]" % (p[1], prhs(p[2], style, depth)))
+            style.push("filter")
+            out.append(style.lbr() + style.kw("keys") + " " + (p[1] if p[1] != "in" else style.kw("in")) + " " + prhs(p[2], style, depth) + style.rbr())
+            style.pop()
         elif t == "raw":
             out.append(p[1])
         else:
@@ -275,6 +277,8 @@ def prhs(r, style=CANON, depth=0):
         return "%" + r[1]
     if t == "query":
         return pquery(r[1], style, depth)
+    if t == "somequery":
+        return style.kw("some") + " " + pquery(r[1], style, depth)
     if t == "fn":
         return "%s(%s)" % (r[1], ", ".join(prhs(a, style, depth) for a in r[2]))
     if t == "raw":
@@ -463,6 +467,8 @@ class Opts:
         self.lit_kinds = ("scalar", "list", "regex", "range", "map")
         self.in_w = 0.2
         self.this_filter = False  # `this[ filter ]` (panics on maps today: C08 territory)
+        self.keys_filters = False # `[ keys == .. ]` map-key filters
+        self.some_lets = False    # `let v = some <query>`
         for k, v in kw.items():
             if not hasattr(self, k):
                 raise AttributeError(k)
@@ -519,6 +525,20 @@ def gen_walk(rng, v, o, maxsteps=4, allow_filter=True, depth=0, first=True):
     for s in range(steps):
         if isinstance(v, dict) and v:
             r = rng.random()
+            if o.keys_filters and q and q[-1][0] == "key" and rng.random() < 0.12:
+                ks = list(v)
+                k0 = rng.choice(ks)
+                form = rng.random()
+                if form < 0.4:
+                    q.append(["keysfilter", "==", ["lit", k0]])
+                    v = v[k0]
+                elif form < 0.7:
+                    q.append(["keysfilter", "==", ["lit", {"$re": "^" + k0[:1]}]])
+                    v = rng.choice([v[k] for k in ks if k.startswith(k0[:1])])
+                else:
+                    q.append(["keysfilter", "in", ["lit", [k0, "nokey"]]])
+                    v = v[k0]
+                continue
             if r < 0.72:
                 k = rng.choice(list(v))
                 q.append(["key", k])
@@ -712,7 +732,10 @@ def gen_lets(rng, ctxv, o, depth, prefix, env):
         else:
             q, v = gen_walk(rng, ctxv, o, 3, allow_filter=o.filters and rng.random() < 0.3, depth=depth)
             q = head_fix(q, depth == 0)
-            lets.append([name, ["query", q]])
+            if o.some_lets and rng.random() < 0.25:
+                lets.append([name, ["somequery", q]])
+            else:
+                lets.append([name, ["query", q]])
             vs.append((name, v, False))
     return lets, vs
 
@@ -775,7 +798,7 @@ def iter_cnfs(f):
     def from_rhs(r):
         if r is None:
             return
-        if r[0] == "query":
+        if r[0] in ("query", "somequery"):
             yield from from_query(r[1])
         elif r[0] == "fn":
             for a in r[2]:
